@@ -211,6 +211,7 @@ type Version struct {
 	pre          []string  // Must be kept as individual elements for comparison, stripped of leading '-'.
 	build        string    // Build tags; concatenated for efficiency (unlike with pre); the '+' is present.
 	ext          extension // Only set for some Systems (Maven, RubyGems).
+	minSentinel  bool      // The version is the system's MinVersion, standing for "no lower bound".
 }
 
 type extension interface {
